@@ -193,7 +193,8 @@ impl Indexable for ast::Def {
             }
         };
 
-        if let Some(defset_id) = defset_id {
+        // anonymous defs are not listed anywhere, also not under their defset
+        if let (Some(defset_id), Some(_)) = (defset_id, self.name()) {
             let defset = ctx.symbol_map.defset_mut(defset_id);
             defset.add_def(def_id);
         }
